@@ -14,6 +14,8 @@ declare -A T=(
  [c15-drop-rows-only]="C15" [c15-impute-all-rows]="C15" [c15-export-fmt]="C15" [c20-cp-unit]="C20"
  [c20-callback]="C20" [c07-offset-whole-curve]="C07" [c07-slope-jump]="C07" [c07-smooth-one-segment]="C07"
  [c08-abs-threshold]="C08" [c08-no-normalisation]="C08"
+ [revert-D17-approach-assert]="C17" [revert-D21-maxima-argmin]="C17" [revert-D22-monotony-inf]="C17"
+ [revert-D23-options-only-before-first-fit]="C03"
 )
 for m in $(echo "${!T[@]}" | tr ' ' '\n' | sort); do
   for id in ${T[$m]}; do
